@@ -415,6 +415,23 @@ def run(facts, rep, tier):
         one_arg = [n for n in rs.nodes() if n.k in ('construct', 'initlist') and 'basic_string' in (n.d.get('class') or n.type or '') and len(real_args(n)) == 1
                    and ((real_args(n)[0].type or '').replace('const ', '').strip() in ('char *', 'unsigned char *', 'signed char *'))]
         strl = [n for n in rs.nodes() if n.k == 'call' and n.callee_base() in ('strlen', 'strnlen')]
+        # readStr() returns the whole content: what it reads itself (not through read(), which rewinds) is read from offset 0
+        for mode_ in ('Read', 'ReadText'):
+            try: res_ = run_paths(facts, rs, FileDomain(dict(mode=mode_)))
+            except Inconclusive: res_ = []
+            for P_, E_ in res_:
+                raw = [e for e in E_ if e.kind == 'call' and ((strip_targs(e.name) == f'{F}::read' and len(e.args) >= 3) or e.name in ('fread',))]
+                for r_ in raw:
+                    i_ = E_.index(r_)
+                    pos_ = [e for e in E_[:i_] if e.kind == 'call' and ((strip_targs(e.name) == f'{F}::seek') or e.name in ('fseek', 'fseeko', 'rewind') or (strip_targs(e.name) == f'{F}::read' and len(e.args) < 3))]
+                    inst_ = f'readStr() mode {mode_}: the bytes it reads itself are read from offset 0'
+                    if not pos_: rep.violation('FI.4', inst_, r_.site, 'readStr() reads the data itself (not through read(), which rewinds) and nothing positions the stream first: it returns what follows the current position, not the whole content (a second readStr() returns an empty string)', key='FI.4|readstr-rewind', fn=rs.name)
+                    else:
+                        l_ = pos_[-1]
+                        a0 = l_.args[1:] if l_.name in ('fseek', 'fseeko') else l_.args
+                        zero = l_.name == 'rewind' or (strip_targs(l_.name) == f'{F}::read') or (a0 and as_lin(a0[0]) == Lin.const(0) and (len(a0) < 2 or repr(a0[1]).endswith('Start') or (as_lin(a0[1]) is not None and as_lin(a0[1]) == Lin.const(0))))
+                        if zero: rep.ok('FI.4', inst_, l_.site)
+                        else: rep.inconclusive('FI.4', inst_, l_.site, f'the positioning before the read ({l_.name}({", ".join(repr(x) for x in l_.args)})) is not a rewind to offset 0: not followed')
         inst = 'readStr() builds the string with an explicit length — NUL-safe'
         if ok: rep.ok('FI.4', inst, rs.shortloc())
         elif one_arg or strl: rep.violation('FI.4', inst, (one_arg or strl)[0].shortloc(), 'readStr() builds the string from a C string (stops at the first NUL)', key='FI.4|readstr', fn=rs.name)
